@@ -308,10 +308,11 @@ def recheck(case):
 def run(tier, seed):
     R = core.Report(PROP, tier, seed, 'exploration')
     V = env.VERSIONS
-    names = ('num', 'opchars', 'strchars', 'indent', 'ws', 'chars')
+    names = ('num', 'opchars', 'strchars', 'indent', 'ws', 'chars', 'contstr')
     if tier == 'quick':
         plan = [(a, 3, 0, V, None, 0) for a in names]
-        plan += [(a, 4, 4, ['3.8', '3.11', '3.12', '3.14'], None, 0) for a in ('num', 'opchars', 'indent')]
+        plan += [(a, 4, 4, ['3.8', '3.11', '3.12', '3.14'], None, 0) for a in ('num', 'opchars', 'indent', 'contstr')]
+        plan.append(('contstr', 5, 5, ['3.8', '3.13'], None, 0))
         k = ('strchars', 'ws', 'chars')[seed % 3]
         plan.append((k, 4, 4, ['3.8', '3.13'], 8, seed % 8))
     else:
